@@ -300,6 +300,12 @@ func TestCheck(t *testing.T) {
 	r.Assumption("start is only issued for a task that is not running and stop/delete only for a running one (the task store guarantees this)")
 	r.Assumption("events are applied at quiescent states; races between control operations and writes are explored by the scheduler-controlled part (see level_note)")
 
+	if n := vsched.FreeRuns(); n > 0 {
+		for _, sc := range concScenarios() {
+			r.Add("race_pass_runs", int64(vsched.FreeRun(t, concHarness(sc), n)))
+		}
+		return
+	}
 	if rep.ReplayPath() != "" {
 		var cr ConcReplay
 		if err := rep.LoadReplay(&cr); err == nil && cr.Sc != nil {
